@@ -69,11 +69,11 @@ class FakeProblem:
 NUM_CONS = 2
 
 
-def make_filter(kind, rho0, num_cons=None):
-    from pygradflow.params import Params
+def make_filter(kind, rho0, num_cons=None, single=False):
+    from pygradflow.params import Params, Precision
     from pygradflow import penalty
 
-    params = Params(rho=rho0)
+    params = Params(rho=rho0, precision=Precision.Single) if single else Params(rho=rho0)
     cls = penalty.ObjectivePenaltyFilter if kind == "Objective" else penalty.LagrangianPenaltyFilter
     return cls(FakeProblem(NUM_CONS if num_cons is None else num_cons), params)
 
@@ -119,6 +119,12 @@ def cases(tier, seed):
             for N in ((40, 300, 1500, 3000) if tier == "quick" else (40, 300, 1500, 3000, 6000, 12000)):
                 for order in ("asc", "desc", "inside_out"):
                     out.append({"kind": kind, "api": api, "chain": N, "order": order, "rho0": 1.0 if api == "filter_insert" else 1e-300})
+    # the same with working precision Single and coordinates (Python floats, as a user objective returns them) that differ by less than the
+    # resolution of single precision: the filter's verdicts and entries are defined on the values it is given
+    for api in ["update", "filter_insert"]:
+        for N in (40, 300):
+            for order in ("asc", "desc", "inside_out"):
+                out.append({"kind": "Objective", "api": api, "chain": N, "order": order, "rho0": 1.0 if api == "filter_insert" else 1e-300, "fine": True})
     # E5: TLC-enumerated state graph of tla/PenaltyFilter.tla, every edge replayed on the implementation
     out.append({"kind": "tlc", "V": [0, 1, 2], "K": 2, "rho0": 1e-8})
     if tier == "thorough":
@@ -234,8 +240,10 @@ def chain_case(case):
     global NUM_CONS
     NUM_CONS = 2
     kind, api, N = case["kind"], case["api"], case["chain"]
-    f = make_filter(kind, case["rho0"])
+    fine = bool(case.get("fine"))
+    f = make_filter(kind, case["rho0"], single=fine)
     ref = RefFilter(case["rho0"])
+    co = (lambda k: 1.0 + k * 2.0 ** -40) if fine else (lambda k: k)
     idx = list(range(N))
     if case["order"] == "desc":
         idx.reverse()
@@ -247,6 +255,7 @@ def chain_case(case):
     def do(a, b, what):
         nonlocal n_ev
         n_ev += 1
+        a, b = co(a), co(b)
         acc, rho_ret = step(kind, api, f, ref, a, b)
         want = ref.update(pair_of(kind, a, b))
         if api == "filter_insert" and not want:
@@ -280,7 +289,7 @@ def chain_case(case):
         for i in range(0, N - 6, max(1, N // 40)):  # dominates entries i .. i+5
             if not do(2 * i + 1, 2 * (N - i - 5) + 1, f"point dominating entries {i}..{i + 5}"):
                 break
-    return {"outcome": "chain-ok" if not viol else "violating", "key": f"chain|{kind}|{api}|{N}|{case['order']}", "violations": viol[:2],
+    return {"outcome": "chain-ok" if not viol else "violating", "key": f"chain|{kind}|{api}|{N}|{case['order']}|{fine}", "violations": viol[:2],
             "stats": {"transitions": n_ev, "states": n_ev, "chain_max": N}}
 
 
